@@ -202,7 +202,10 @@ end FS
 /-! ### builtins (`src/builtin/str.rs`), integer arguments as mathematical integers -/
 
 /-- `LazyBigint::to_usize` -/
-def toUsize (v : Int) : Option Nat := if 0 ≤ v ∧ v < 2 ^ 64 then some v.toNat else none
+def usizeLimit : Nat := 18446744073709551616   -- 2^64
+
+def toUsize (v : Int) : Option Nat :=
+  if v < 0 then none else if v.toNat < usizeLimit then some v.toNat else none
 
 /-- `get` (:124-140) -/
 def get (s : FS) (i : Int) : Res FS :=
@@ -213,20 +216,31 @@ def get (s : FS) (i : Int) : Res FS :=
     if i ≥ s.len then .err "index out of bounds"
     else s.substring i (some (i + 1))
 
+/-- the search of `find` once the start index is a machine index -/
+def findFrom (s needle : FS) (st : Nat) : Res (Option Nat) :=
+  if st > s.len then .err "index out of bounds"
+  else
+    (s.substr st none).bind fun hay =>
+    match strFind hay needle.buf with
+    | none => .ok none
+    | some b =>
+      (FS.optSlice (slice hay 0 b) "byte slice").bind fun pre => .ok (some (pre.length + st))
+
 /-- `find` (:142-183) -/
 def find (s needle : FS) (start : Option Int) : Res (Option Nat) :=
   if needle.buf.isEmpty then .err "needle cannot be empty"
   else
     match (match start with | none => some 0 | some v => toUsize v) with
     | none => .err "index out of bounds"
-    | some st =>
-      if st > s.len then .err "index out of bounds"
-      else
-        (s.substr st none).bind fun hay =>
-        match strFind hay needle.buf with
-        | none => .ok none
-        | some b =>
-          (FS.optSlice (slice hay 0 b) "byte slice").bind fun pre => .ok (some (pre.length + st))
+    | some st => findFrom s needle st
+
+/-- the search of `rfind` once the end index is a machine index (or absent) -/
+def rfindTo (s needle : FS) (e : Option Nat) : Res (Option Nat) :=
+  (s.substr 0 e).bind fun hay =>
+  match strRFind hay needle.buf with
+  | none => .ok none
+  | some b =>
+    (FS.optSlice (slice hay 0 b) "byte slice").bind fun pre => .ok (some pre.length)
 
 /-- `rfind` (:185-222) -/
 def rfind (s needle : FS) (end_ : Option Int) : Res (Option Nat) :=
@@ -234,12 +248,7 @@ def rfind (s needle : FS) (end_ : Option Int) : Res (Option Nat) :=
   else
     match (match end_ with | none => some none | some v => (toUsize v).map some) with
     | none => .err "index out of bounds"
-    | some e =>
-      (s.substr 0 e).bind fun hay =>
-      match strRFind hay needle.buf with
-      | none => .ok none
-      | some b =>
-        (FS.optSlice (slice hay 0 b) "byte slice").bind fun pre => .ok (some pre.length)
+    | some e => rfindTo s needle e
 
 /-- native `substring(x, start, end)` (:224-249); `same` = the argument itself is returned -/
 def substring (s : FS) (a b : Int) : Res FS :=
